@@ -105,3 +105,4 @@ let string_of_bool b = if b then "true" else "false"
 let cstats_of_string s = if s = "-" then [] else List.init (String.length s) (fun i -> col_bstat_of_code (coqz_of_z (BZ.of_int (Char.code s.[i]))))
 let rstats_of_string s = if s = "-" then [] else List.init (String.length s) (fun i -> row_bstat_of_code (coqz_of_z (BZ.of_int (Char.code s.[i]))))
 let qs_join l = String.concat " " (List.map string_of_q l)
+let bstats_of_string = cstats_of_string   (* kept for drivers written against the first version of glue.ml *)
